@@ -36,14 +36,15 @@ type cvar struct {
 }
 
 type cgen struct {
-	r      *rng.R
-	funcs  []*cfn // callable: the functions generated so far
-	self   *cfn
-	selfOK int // self calls still allowed in this body
-	vars   []cvar
-	used   map[string]bool
-	fresh  int
-	calls  int // calls left for this body
+	r       *rng.R
+	funcs   []*cfn // callable: the functions generated so far
+	self    *cfn
+	selfOK  int // self calls still allowed in this body
+	vars    []cvar
+	used    map[string]bool
+	fresh   int
+	calls   int               // calls left for this body
+	scopeOf map[string]string // variable -> indentation of the block that declares it (parameters: the body's)
 }
 
 type cex struct {
@@ -328,10 +329,36 @@ func (g *cgen) body(res byte, depth int, ind string) (string, string) {
 		}
 		g.fresh++
 		x := fmt.Sprintf("%s%d", rng.Pick(g.r, []string{"v", "t", "acc", "w"}), g.fresh)
-		saved := len(g.vars)
-		g.vars = append(g.vars, cvar{x, t})
+		if ind != "\t" && g.r.Intn(3) == 0 {
+			// inside a branch a declaration may hide a parameter or an outer variable (of any type);
+			// not the recursion's own n and r
+			var cands []string
+			for _, v := range g.vars {
+				if v.name != "n" && v.name != "r" && g.scopeOf[v.name] != ind {
+					cands = append(cands, v.name)
+				}
+			}
+			if len(cands) > 0 {
+				x = rng.Pick(g.r, cands)
+			}
+		}
+		saved := g.vars
+		var inner []cvar
+		for _, v := range g.vars {
+			if v.name != x {
+				inner = append(inner, v)
+			}
+		}
+		g.vars = append(inner, cvar{x, t})
+		outerScope, had := g.scopeOf[x]
+		g.scopeOf[x] = ind
 		kgo, kterm := g.body(res, depth-1, ind)
-		g.vars = g.vars[:saved]
+		g.vars = saved
+		if had {
+			g.scopeOf[x] = outerScope
+		} else {
+			delete(g.scopeOf, x)
+		}
 		if !mentions(kgo, x) {
 			// Go refuses an unused variable: leave the declaration out
 			return kgo, kterm
@@ -409,6 +436,10 @@ func GenerateCalls(r *rng.R, name string, neg bool) *CProg {
 		}
 		g.vars = append([]cvar{}, f.params...)
 		g.used = map[string]bool{}
+		g.scopeOf = map[string]string{}
+		for _, v := range f.params {
+			g.scopeOf[v.name] = "\t"
+		}
 		g.fresh = 0
 		g.calls = 3
 		g.self, g.selfOK = nil, 0
@@ -420,6 +451,7 @@ func GenerateCalls(r *rng.R, name string, neg bool) *CProg {
 			rc, _ := g.call(f.res, 2)
 			g.selfOK = 0
 			g.vars = append(g.vars, cvar{"r", f.res})
+			g.scopeOf["r"] = "\t"
 			kgo, kterm := g.body(f.res, 1+r.Intn(2), "\t")
 			if !mentions(kgo, "r") {
 				// the rest does not mention r: it runs under a condition and r is combined afterwards
